@@ -35,6 +35,11 @@ JUNK = [b"", b" ", b"\t", b"foo", b"on", b"off", b"ON n0", b"On n0", b"status", 
         b"on t[18446744073709551615]x", b"on n[18446744073709551615]", b"status n[18446744073709551614-18446744073709551615]", b"off n18446744073709551615"]
 
 
+# every command word that takes a node list, with every kind of list hostlist_create refuses (and a few it accepts)
+for _w in [b"on", b"off", b"cycle", b"reset", b"flash", b"unflash", b"status", b"beacon", b"temp", b"device", b"exprange", b"telemetry", b"nodes", b"help"]:
+    for _bad in [b"a[2-", b"b[1", b"a[3-1]", b"[", b"n[1,2", b"n[1-2]x[", b",", b"n0,", b"zz[1-2]"]:
+        JUNK.append(_w + b" " + _bad)
+
 LINEMAX = 131072          # cross-checked against Gen/GenConsts.v in correspond()
 
 
